@@ -1,5 +1,7 @@
 """C13 — Block fetching survives any reply sequence and interleaving (DESIGN §5 C13)."""
+from sa import pat as P
 from sa.cfg import cfg
+from sa.util import fmt_conds
 from sa.expr import ex, cond_exprs, conditions, show, walk, is_field, const_val, canon, strip_casts
 from sa.util import (gate, panic_blocks, the_closure, glob_any, require_callers, require_writers, field_assignments,
                      unwrap_some, agg_variant, agg_field, cond_variants, mentions_field, local_assignments, return_blocks)
@@ -65,6 +67,23 @@ def _run(ctx):
         ok, why = gate(prog, F, news[0].bb, call.bb, success={'Some'})
         ctx.check(ok, 'R1', 'guard-gates-call', call, 'FetchBlocksGuard::new() == Some gates the call (%s)' % why,
                   'call_get_successors is not gated by FetchBlocksGuard::new() returning Some: %s' % why)
+    # liveness side: a request goes out whenever syncing is enabled, no request is outstanding and there is a
+    # request to send — the call site's conditions are exactly these three (no further guard, also not a
+    # compound one off the dominator chain, that could stop fetching for good)
+    conds = cond_exprs(prog, F, call.bb)
+    syncing_on = False
+    for c_ in conds:
+        if c_[0] == 'un' and c_[1] == 'Not' and c_[2][0] == 'call' and c_[2][1] == 'ic_btc_canister::with_state' and c_[2][2] and c_[2][2][0][0] == 'closure':
+            k_ = prog.fns.get(c_[2][2][0][1])
+            if k_ is not None:
+                r_ = ex(prog, k_).local(0)
+                syncing_on = P.binop('Eq', P.has(P.agg(variant='Disabled')), P.field('syncing', P.anything))(r_) or P.binop('Eq', P.field('syncing', P.anything), P.has(P.agg(variant='Disabled')))(r_)
+    want = [lambda c_: c_[0] == 'un' and c_[1] == 'Not' and c_[2][0] == 'call' and c_[2][1] == 'ic_btc_canister::with_state',
+            P.is_(P.call('ic_btc_canister::guard::FetchBlocksGuard::new'), 'Some'),
+            P.is_(P.call('ic_btc_canister::heartbeat::maybe_get_successors_request'), 'Some')]
+    ctx.check(syncing_on and P.exactly(conds, want), 'R1', 'call-exact-conditions', call,
+              'get_successors is called exactly when syncing is not disabled, the guard was acquired and there is a request to send',
+              'the get_successors call has other conditions: %s' % fmt_conds(conds)[:300])
     saved = prog.coroutines.get(F.id)
     if saved is None:
         ctx.unknown('R1', 'guard-saved-across-await', F, 'no coroutine layout for %s' % F.short)
